@@ -59,7 +59,7 @@ type vRes struct {
 	Recs  [][]vField `json:"recs"`
 	Err   string     `json:"err,omitempty"`
 	Panic string     `json:"panic,omitempty"`
-	JSON  *string    `json:"json,omitempty"`
+	JSON  []byte     `json:"json,omitempty"`
 	JErr  string     `json:"jerr,omitempty"`
 	Agent string     `json:"agent,omitempty"`
 	Alloc uint64     `json:"alloc,omitempty"`
@@ -236,8 +236,7 @@ func vRunMsg(cache MemCache, m vMsg, wantJSON, measure bool) (res vRes) {
 		if jerr != nil {
 			res.JErr = jerr.Error()
 		} else {
-			s := string(b)
-			res.JSON = &s
+			res.JSON = append([]byte{}, b...)
 		}
 	}
 	return
